@@ -206,6 +206,22 @@ def system(param_seed: int | None = None, variant: str = ""):
     return tbs
 
 
+BASELINE_VARIANT = {"": "", "reform": "reform", "reformobj": "reform", "ext": "ext"}
+
+
+@functools.lru_cache(maxsize=None)
+def baseline_system(kind: str = ""):
+    """A system handed to `run_tests` as its BASELINE.  All of them report the same country-package metadata and are
+    different objects: "" the fixed system; "reform" the system built directly with the reform's formula
+    (p_f_int = 3 * p_int + 1); "reformobj" a Reform object of the fixed system (a reform reports its baseline's
+    metadata); "ext" the system built directly with the extension's variable.  BASELINE_VARIANT gives the variant
+    of the independent engine run that tells what each computes."""
+    if kind == "reformobj":
+        from .apireform import OfvReform
+        return OfvReform(system())
+    return system(None, BASELINE_VARIANT[kind])
+
+
 def dated_variables(seed: int) -> dict:
     """{name: ([formula start dates ascending], end | None)} of the extra variables of system(seed)"""
     import random
@@ -301,6 +317,35 @@ def post(cl, route: str, doc):
     import json
     r = cl.post(route, data=json.dumps(doc), content_type="application/json")
     return r.status_code, (r.get_json(silent=True) if r.status_code == 200 else None)
+
+
+def post_full(cl, route: str, doc):
+    """-> (status, JSON body whatever the status, response headers)"""
+    import json
+    r = cl.post(route, data=json.dumps(doc), content_type="application/json")
+    return r.status_code, r.get_json(silent=True), dict(r.headers)
+
+
+def package_headers(param_seed: int | None = None, variant: str = "") -> dict:
+    """What every answer of the application must carry: the served system's own package metadata."""
+    meta = system(param_seed, variant).get_package_metadata()
+    return {"Country-Package": meta["name"], "Country-Package-Version": meta["version"]}
+
+
+def builder_refusal(doc, variant: str = ""):
+    """How the situation builder itself refuses `doc`, for the routes that build a situation:
+    {"status": the error's code or 400, "error": its path -> message tree} when it raises a
+    SituationParsingError, else None (accepted, or refused with another exception)."""
+    import copy
+    from openfisca_core import errors
+    from openfisca_core.simulations import SimulationBuilder
+    try:
+        SimulationBuilder().build_from_entities(system(None, variant), copy.deepcopy(doc))
+    except errors.SituationParsingError as e:
+        return {"status": e.code or 400, "error": e.error}
+    except Exception:
+        return None
+    return None
 
 
 # --------------------------------------------------------------------------------------
@@ -469,11 +514,15 @@ def iso_of_http_date(s: str):
 
 CONFTEST = '''
 import json, os
+import pytest
 _OUT = os.path.join(os.path.dirname(__file__), "outcomes.jsonl")
-def pytest_runtest_logreport(report):
+@pytest.hookimpl(hookwrapper=True)
+def pytest_runtest_makereport(item, call):
+    outcome = yield
+    report = outcome.get_result()
     if report.when == "call" or (report.when == "setup" and report.outcome != "passed"):
         with open(_OUT, "a") as f:
-            f.write(json.dumps({"file": os.path.basename(str(report.fspath)), "outcome": report.outcome,
+            f.write(json.dumps({"file": os.path.basename(str(report.fspath)), "outcome": report.outcome, "name": str(getattr(item, "name", "")),
                                 "when": report.when, "text": str(report.longrepr)[-600:] if report.failed else ""}) + "\\n")
 '''
 
